@@ -25,6 +25,7 @@ import (
 const ruleC28 = "rapid-generated request sequences (8-40 requests per case) served in process by the real request multiplexer over a real node: chain database with 8 blocks (multi-transaction blocks, wallet-owned and foreign outputs), a pool of 3 transactions (one violating the soft rules), a wallet service with deterministic, bip44, collection and encrypted wallets, key-value storage, daemon with networking disabled and its event loops running; every case starts from a fresh copy of the node. Requests: every endpoint of the route table with a parameter grammar fed from live values (addresses, transaction / output / block hashes, wallet ids, encoded transactions incl. spends of already spent outputs, of unknown outputs, unsigned and re-signed ones) and mutated per parameter (missing, empty, other live value, wrong type, huge, negative, 2^63 / 2^64, scientific notation up to 1e999999999, unicode, NUL, very long lists, duplicates); JSON bodies with wrong-typed, missing, unknown and deeply nested members, invalid and truncated JSON; oracle: the handler returns within 20 s with a status in 200-599 and a body that parses as its declared content type, nothing panics, and the node still answers /api/v1/health with 200 afterwards; non-trivial = the request was answered by endpoint logic with valid-looking parameters for at least one field (not a 404/405/415); distinct by request rendering"
 
 type c28Ctx struct {
+	rawtxs []string // encoded transactions: confirmed ones of every block (the first spends the genesis output), pooled ones
 	t     *rapid.T
 	n     *liveNode
 	tm    *nodeTemplate
@@ -143,7 +144,7 @@ func (c *c28Ctx) val(class string) string {
 	case "sval":
 		good = c.pick("sval", []string{"v", "{\"a\":1}", strings.Repeat("v", 5000)})
 	case "rawtx":
-		good = c.pick("rawtx", []string{c.tm.spendableHex, c.tm.spentTxnHex, c.tm.unsignedHex, c.tm.spendableHex})
+		good = c.pick("rawtx", append([]string{c.tm.spendableHex, c.tm.spentTxnHex, c.tm.unsignedHex, c.tm.spendableHex}, c.rawtxs...))
 	case "xpub":
 		good = c.pick("xpub", []string{"xpub6CUGRUonZSQ4TWtTMmzXdrXDtypWKiKrhko4egpiMZbpiaQL2jkwSB1icqYh2cfDfVxdx4df189oLKnC5fSwqPfgyP3hooxujYzAu3fDVmz", "xpub661MyMwAqRbcFtXgS5sYJABqqG9YLmC4Q1Rdap9gSE8NqtwybGhePY2gZ29ESFjqJoCu1Rupje8YtGqsefD265TMg7usUDFdp6W1EGMcet8"})
 	case "privkeys":
@@ -359,6 +360,9 @@ func (c *c28Ctx) collectLive() {
 		}
 		add(&c.bhash, b.HashHeader().Hex())
 		for _, tx := range b.Body.Transactions {
+			if raw, err := tx.Serialize(); err == nil {
+				c.rawtxs = append(c.rawtxs, hex.EncodeToString(raw))
+			}
 			add(&c.txids, tx.Hash().Hex())
 			for _, in := range tx.In {
 				add(&c.uxids, in.Hex()) // spent
@@ -374,6 +378,9 @@ func (c *c28Ctx) collectLive() {
 	}
 	for _, p := range pool {
 		add(&c.txids, p.Transaction.Hash().Hex())
+		if raw, err := p.Transaction.Serialize(); err == nil {
+			c.rawtxs = append(c.rawtxs, hex.EncodeToString(raw))
+		}
 	}
 	all, err := n.v.GetAllUnspentOutputs()
 	if err != nil {
@@ -635,9 +642,52 @@ func TestC28_VerifyAnyTransactionReturnsAVerdict(t *testing.T) {
 		t.Fatal(err)
 	}
 	defer n.stop()
+	verifyOnce := func(enc string, unsigned bool) (served, string) {
+		body, _ := json.Marshal(map[string]interface{}{"unsigned": unsigned, "encoded_transaction": enc})
+		req := httptest.NewRequest("POST", "http://127.0.0.1:6420/api/v2/transaction/verify", bytes.NewReader(body))
+		req.Header.Set("Content-Type", "application/json")
+		return n.serve(req, 20*time.Second), enc
+	}
+	// every transaction the node knows (each confirmed one - the first spends the genesis output -, each pooled one, the
+	// prepared ones), unmodified, with both values of the unsigned flag: enumerated, not sampled
+	{
+		var all []string
+		head, _, _ := n.v.HeadBkSeq()
+		for s := uint64(0); s <= head; s++ {
+			if b, err := n.v.GetSignedBlockBySeq(s); err == nil && b != nil {
+				for _, tx := range b.Body.Transactions {
+					if raw, err := tx.Serialize(); err == nil {
+						all = append(all, hex.EncodeToString(raw))
+					}
+				}
+			}
+		}
+		if pool, err := n.v.GetAllUnconfirmedTransactions(); err == nil {
+			for _, p := range pool {
+				if raw, err := p.Transaction.Serialize(); err == nil {
+					all = append(all, hex.EncodeToString(raw))
+				}
+			}
+		}
+		all = append(all, tm.spendableHex, tm.spentTxnHex, tm.unsignedHex)
+		for _, enc := range all {
+			for _, u := range []bool{false, true} {
+				s, _ := verifyOnce(enc, u)
+				if s.hung || s.pan != nil {
+					t.Fatalf("verifying a known transaction (unsigned=%v) hung=%v panic=%v\n encoded_transaction=%q", u, s.hung, s.pan, trim(enc, 400))
+				}
+				if s.code < 200 || s.code > 599 || !json.Valid(s.body) {
+					t.Fatalf("verifying a known transaction answered %d %q", s.code, trim(string(s.body), 200))
+				}
+				r.CaseS(true, fmt.Sprintf("known/%v/%s", u, enc))
+				r.Count(fmt.Sprintf("verify_known_status_%d", s.code))
+			}
+		}
+	}
 	hx.Check(t, "C28", 400, 40000, func(t *rapid.T) {
 		c := &c28Ctx{t: t, n: n, tm: tm}
-		base := c.pick("base", []string{tm.spendableHex, tm.spentTxnHex, tm.unsignedHex})
+		c.collectLive()
+		base := c.pick("base", append([]string{tm.spendableHex, tm.spentTxnHex, tm.unsignedHex}, c.rawtxs...))
 		enc := base
 		switch rapid.IntRange(0, 5).Draw(t, "mut") {
 		case 0:
